@@ -8,7 +8,8 @@
    versions, duplicates, empty, missing), for both values of the ignore-missing option;
    the only hypothesis is that history versions are non-negative. *)
 From Coq Require Import ZArith List Bool Lia.
-From Verif Require Import C13.Model C13.Spec C13.Proofs.
+From Verif Require Import C13.Model C13.Spec C13.Proofs C13.GenOk.
+From VerifGen Require Import GenChange.
 Import ListNotations.
 Open Scope Z_scope.
 
@@ -60,9 +61,9 @@ Qed.
       no predecessor without ignore-missing (NoVisibleChildError carrying that element's kind and
       id) or whose data source lookup failed otherwise (that error unchanged, whatever the
       option), and every element before it had an admissible outcome. *)
-Theorem C13_change_actions : forall ds ign c,
+Theorem C13_change_actions : forall nft ds ign c,
   ds_nonneg ds ->
-  match annotate_change ds ign c with
+  match annotate_change nft ds ign c with
   | ROk acts => Forall2 (outcome_ok ds ign) (elems_in_order c) acts
   | RErr err => exists pre se post acts,
                   elems_in_order c = pre ++ se :: post /\
@@ -71,27 +72,27 @@ Theorem C13_change_actions : forall ds ign c,
 Proof. exact annotate_change_spec. Qed.
 Print Assumptions C13_change_actions.
 
-Corollary C13_one_action_per_element : forall ds ign c acts,
-  ds_nonneg ds -> annotate_change ds ign c = ROk acts ->
+Corollary C13_one_action_per_element : forall nft ds ign c acts,
+  ds_nonneg ds -> annotate_change nft ds ign c = ROk acts ->
   length acts = length (elems_in_order c).
 Proof.
-  intros ds ign c acts Hds H. pose proof (annotate_change_spec ds ign c Hds) as Hs.
+  intros nft ds ign c acts Hds H. pose proof (annotate_change_spec nft ds ign c Hds) as Hs.
   rewrite H in Hs. symmetry. clear H. induction Hs; cbn; congruence.
 Qed.
 Print Assumptions C13_one_action_per_element.
 
 (* the same as an equation with the executable specification (one outcome per element, first
    error wins) *)
-Theorem C13_change_eq_spec : forall ds ign c,
-  ds_nonneg ds -> annotate_change ds ign c = spec_change ds ign c.
+Theorem C13_change_eq_spec : forall nft ds ign c,
+  ds_nonneg ds -> annotate_change nft ds ign c = spec_change ds ign c.
 Proof. exact annotate_change_eq_spec. Qed.
 Print Assumptions C13_change_eq_spec.
 
 (* with ignore-missing the only possible failure is a data source error other than not-found *)
-Corollary C13_ignore_missing_never_typed_error : forall ds c k id,
-  ds_nonneg ds -> annotate_change ds true c <> RErr (ENoVisibleChild k id).
+Corollary C13_ignore_missing_never_typed_error : forall nft ds c k id,
+  ds_nonneg ds -> annotate_change nft ds true c <> RErr (ENoVisibleChild k id).
 Proof.
-  intros ds c k id Hds H. pose proof (annotate_change_spec ds true c Hds) as Hs. rewrite H in Hs.
+  intros nft ds c k id Hds H. pose proof (annotate_change_spec nft ds true c Hds) as Hs. rewrite H in Hs.
   destruct Hs as (pre & se & post & acts & _ & _ & Hne & Herr). cbn zeta in Herr.
   destruct (ds (e_kind (snd se)) (e_id (snd se))).
   - destruct Herr as (_ & Habs & _). discriminate.
@@ -99,6 +100,45 @@ Proof.
   - discriminate.
 Qed.
 Print Assumptions C13_ignore_missing_never_typed_error.
+
+(* 3. what ds.NotFound answers for the NoVisibleChildError made by findPrevious itself (the
+      parameter nft; the HistoryDatasourcer interface does not say) is irrelevant *)
+Theorem C13_not_found_irrelevant : forall nft ds ign c,
+  ds_nonneg ds -> annotate_change nft ds ign c = annotate_change false ds ign c.
+Proof.
+  intros nft ds ign c H. rewrite (annotate_change_eq_spec nft ds ign c H).
+  symmetry. exact (annotate_change_eq_spec false ds ign c H).
+Qed.
+Print Assumptions C13_not_found_irrelevant.
+
+(* 4. tie by translation: findPreviousNode/Way/Relation and checkErr as regenerated from
+      annotate/change.go on every run (VerifGen.GenChange) agree with the model: the three
+      per-kind functions are one function; without a data source error it returns what
+      find_previous_elem returns (hist[loc] for the model's predecessor, nil under
+      ignore-missing, the typed error otherwise); a data source error is passed on unchanged;
+      checkErr has the model's decision structure. *)
+Theorem C13_generated_code_is_model :
+  gen_find_previous_way = gen_find_previous_node /\
+  gen_find_previous_relation = gen_find_previous_node /\
+  (forall h e ign, interp_fpg h e (gen_find_previous_node h 0 e ign)
+                   = Some (find_previous_elem (fun _ _ => LOk h) ign e)) /\
+  (forall h c e ign, c <> 0 -> gen_find_previous_node h c e ign = FPG_DsErr c) /\
+  (forall nft ign r e,
+     check_err nft ign r e =
+     match gen_check_err (fp_err_nil r) (fp_not_found nft r) ign with
+     | CE_Nil => None
+     | CE_NoVisible => Some (ENoVisibleChild (e_kind e) (e_id e))
+     | CE_Same => match r with
+                  | FNoVisible k id => Some (ENoVisibleChild k id)
+                  | FDsOther c => Some (EOther c)
+                  | _ => None
+                  end
+     end).
+Proof.
+  split; [exact gen_find_previous_way_same|]. split; [exact gen_find_previous_relation_same|].
+  split; [exact gen_find_previous_node_ok|]. split; [exact gen_find_previous_node_err|exact gen_check_err_ok].
+Qed.
+Print Assumptions C13_generated_code_is_model.
 
 (* ---------- non-vacuity ---------- *)
 Definition ex_hist := [mkElem KNode 3 1 true 21; mkElem KNode 3 3 true 22; mkElem KNode 3 2 false 23;
@@ -118,13 +158,21 @@ Proof.
          end; discriminate.
 Qed.
 
+Example C13_ex_generated :
+  gen_find_previous_node ex_hist 0 (mkElem KNode 3 4 false 13) false = FPG_At 1 /\
+  gen_find_previous_node ex_hist 0 (mkElem KNode 3 1 false 13) false = FPG_NoVisible /\
+  gen_find_previous_node ex_hist 0 (mkElem KNode 3 1 false 13) true = FPG_Nil /\
+  gen_find_previous_node [] 7 (mkElem KNode 3 1 false 13) true = FPG_DsErr 7 /\
+  gen_check_err false true false = CE_NoVisible /\ gen_check_err false false true = CE_Same.
+Proof. repeat split; vm_compute; reflexivity. Qed.
+
 Example C13_ex_find_previous :
   find_previous 4 ex_hist = Some (mkElem KNode 3 3 true 22) /\ find_previous 1 ex_hist = None /\
   find_previous 9 ex_hist = Some (mkElem KNode 3 5 true 24).
 Proof. repeat split; vm_compute; reflexivity. Qed.
 
 Example C13_ex_change_ignore :
-  annotate_change ex_ds true ex_change =
+  annotate_change false ex_ds true ex_change =
   ROk [mkAction TCreate (Some (mkElem KNode 1 1 true 11)) None None;
        mkAction TCreate (Some (mkElem KWay 2 1 true 12)) None None;
        mkAction TModify None (Some (mkElem KNode 3 3 true 22)) (Some (mkElem KNode 3 4 true 13));
@@ -133,7 +181,7 @@ Example C13_ex_change_ignore :
 Proof. vm_compute. reflexivity. Qed.
 
 Example C13_ex_change_error :
-  annotate_change ex_ds false ex_change = RErr (ENoVisibleChild KWay 5) /\
-  annotate_change ex_ds true (mkChange (mkSection [] [] []) (mkSection [] [mkElem KWay 6 2 true 1] []) (mkSection [] [] []))
+  annotate_change false ex_ds false ex_change = RErr (ENoVisibleChild KWay 5) /\
+  annotate_change false ex_ds true (mkChange (mkSection [] [] []) (mkSection [] [mkElem KWay 6 2 true 1] []) (mkSection [] [] []))
   = RErr (EOther 9).
 Proof. split; vm_compute; reflexivity. Qed.
